@@ -752,6 +752,91 @@ func ruleSignParity(w *World, r *RuleResult) {
 	}
 	found := false
 	d := newDedup(r)
+	// unary context: signs are folded only after an operator or an opening parenthesis (after an
+	// operand — a number, a name, a closing parenthesis — the sign is binary and must stay)
+	tt := tokenTypes(w)
+	allowed := uint64(1)<<uint(tt["tokSymbol"]) | uint64(1)<<uint(tt["tokParenL"])
+	isTokType := func(t *T) bool { return t != nil && typeName(t.Ty) == "tokenType" }
+	// the values of a token type a test lets through
+	var trueSet func(t *T) (uint64, bool)
+	trueSet = func(t *T) (uint64, bool) {
+		t = stripConv(t)
+		switch {
+		case t.IsConstVal(0):
+			return 0, true
+		case t.Op == "eq" && isTokType(t.A[0]) && t.A[1].IsConst() && t.A[1].C >= 0 && t.A[1].C < 64:
+			return 1 << uint(t.A[1].C), true
+		case t.Op == "in" && isTokType(t.A[0]):
+			var s uint64
+			for _, a := range t.A[1:] {
+				if !a.IsConst() || a.C < 0 || a.C >= 64 {
+					return 0, false
+				}
+				s |= 1 << uint(a.C)
+			}
+			return s, true
+		case t.Op == "or" && len(t.A) == 2:
+			a, ok1 := trueSet(t.A[0])
+			b, ok2 := trueSet(t.A[1])
+			return a | b, ok1 && ok2
+		}
+		return 0, false
+	}
+	gated, scans := 0, 0
+	for _, p := range fps {
+		signTest := hasCond(p, func(a *T, v bool) bool {
+			return a.Op == "eq" && a.A[1].Op == "str" && (a.A[1].S == "-" || a.A[1].S == "+")
+		})
+		if !signTest {
+			continue
+		}
+		scans++
+		pos := w.Pos(f1.Pos())
+		// (a) the type of the previous token is known on the path
+		for k, set := range p.Sets {
+			if !isTokType(p.SetTerms[k]) {
+				continue
+			}
+			// the token under the sign test itself is not the previous one
+			cur := hasCond(p, func(a *T, v bool) bool {
+				return a.Op == "eq" && a.A[1].Op == "str" && (a.A[1].S == "-" || a.A[1].S == "+") && stripConv(a.A[0]).Op == "sel" && stripConv(p.SetTerms[k]).Op == "sel" && stripConv(a.A[0]).A[0].Key() == stripConv(p.SetTerms[k]).A[0].Key()
+			})
+			if cur {
+				continue
+			}
+			gated++
+			d.add(set&^allowed == 0, f1.Name()+"/unary-context", pos, "a run of signs is folded only after an operator or an opening parenthesis", "signs are folded after a token that ends an operand (a closing parenthesis, a name): the binary '+' or '-' that follows it is swallowed ('(1+2)+3' becomes '(1+2)3')")
+		}
+		// (b) ... or remembered in a flag that every iteration sets from the type of the token it emits
+		for _, cd := range p.Conds {
+			if !cd.Val || cd.Atom.Op != "loopvar" {
+				continue
+			}
+			_, steps, ok := loopVarSteps(w, f1, p, cd.Atom)
+			if !ok || len(steps) == 0 {
+				continue
+			}
+			all, known := uint64(0), true
+			for _, st := range steps {
+				s, ok := trueSet(st.v)
+				if !ok {
+					// the flag carried over unchanged
+					if stripConv(st.v).Key() == cd.Atom.Key() {
+						continue
+					}
+					known = false
+				}
+				all |= s
+			}
+			if known && all != 0 {
+				gated++
+				d.add(all&^allowed == 0, f1.Name()+"/unary-context", pos, "a run of signs is folded only after an operator or an opening parenthesis", "signs are folded after a token that ends an operand (a closing parenthesis, a name): the binary '+' or '-' that follows it is swallowed ('(1+2)+3' becomes '(1+2)3')")
+			}
+		}
+	}
+	if scans > 0 && gated == 0 {
+		d.add(false, f1.Name()+"/unary-context", w.Pos(f1.Pos()), "", "the sign-folding pass does not look at the token before a run of signs: it cannot tell a unary sign from a binary one")
+	}
 	for _, m := range bes {
 		if !m.minus {
 			continue
